@@ -208,6 +208,18 @@ theorem c19_repeated_id_overwrites (cfg : Cfg κ ν) (s : Store ι κ ν) (now :
   have : ¬ id = j := fun e => hj e.symm
   simp [step, get_put, this]
 
+/-- Two session managers alive in one process (two `ProtocolHandler`s) are independent: however
+their operations are interleaved, each store and each list of outputs is what that manager
+produces on its own operations alone — nothing one of them does is visible in the other. -/
+theorem c19_managers_independent (cfg : Cfg κ ν) (p : Store ι κ ν × Store ι κ ν)
+    (xs : List (Bool × Int × Op ι κ ν)) :
+    (runPairFrom cfg p xs).1.1 = (runFrom cfg p.1 ((xs.filter (·.1)).map (·.2))).1
+    ∧ (runPairFrom cfg p xs).1.2 = (runFrom cfg p.2 ((xs.filter (fun y => !y.1)).map (·.2))).1
+    ∧ ((runPairFrom cfg p xs).2.filter (·.1)).map (·.2) = (runFrom cfg p.1 ((xs.filter (·.1)).map (·.2))).2
+    ∧ ((runPairFrom cfg p xs).2.filter (fun y => !y.1)).map (·.2)
+        = (runFrom cfg p.2 ((xs.filter (fun y => !y.1)).map (·.2))).2 :=
+  runPairFrom_proj cfg p xs
+
 end
 
 /-! ## Non-vacuity: concrete histories (ids `Nat`, client info and versions `String`) -/
@@ -246,6 +258,13 @@ example :
     ∧ keys (run cfgEx [(0, .create 7 "a" "v"), (3, .initSilent (some 7) 8 none none)]).1 = [7, 8]
     ∧ ((run cfgEx [(0, .create 7 "a" "v"), (3, .create 7 "b" "w")]).1.map (fun p => (p.1, p.2.client, p.2.created)))
         = [(7, "b", 3)] := by decide
+
+/-- two managers, interleaved creates with the SAME id: each keeps its own session -/
+example : (runPairFrom cfgEx (([] : Store Nat String String), []) [(true, 0, .create 7 "a" "v"), (false, 1, .create 7 "b" "w"),
+      (true, 2, .delete 7)]).1.2.map (fun q => (q.1, q.2.client))
+      = [(7, "b")]
+    ∧ keys (runPairFrom cfgEx (([] : Store Nat String String), []) [(true, 0, .create 7 "a" "v"),
+        (false, 1, .create 7 "b" "w"), (true, 2, .delete 7)]).1.1 = [] := by decide
 
 /-- the freshness hypothesis of `c19_initialize_creates_one` is satisfiable and the conclusion
 is about a non-empty store -/
